@@ -43,6 +43,13 @@ def remove_unused_self_cls(source: str) -> str:
         and not any(_decorators_of_type(funcdef, "classmethod"))
     }
 
+    # self.name may be an instance attribute that hides the method of the class
+    assigned_attributes = {
+        node.attr
+        for node in core.walk(root, ast.Attribute)
+        if not isinstance(node.ctx, ast.Load)
+    }
+
     for classdef in parsing.iter_classdefs(root):
         # Methods that the class body reads by name are called there as plain functions, or handed
         # to something, like property(getter). The class body also evaluates the decorators, the
@@ -91,7 +98,11 @@ def remove_unused_self_cls(source: str) -> str:
                     if isinstance(child, ast.Name) and child.id == first_arg_name:
                         first_arg_accesses.add(child)
                     elif parsing.is_call(
-                        child, [f"{first_arg_name}.{attr}" for attr in class_non_instance_methods]
+                        child,
+                        [
+                            f"{first_arg_name}.{attr}"
+                            for attr in class_non_instance_methods - assigned_attributes
+                        ],
                     ):
                         static_accesses.add(child.func.value)
 
